@@ -4,5 +4,5 @@ From Coq Require Import ExtrOcamlBasic.
 From Coq Require Import List ZArith NArith.
 From Muduo Require Import Base_Bytes Conc_Model C15_Model.
 Extraction "model.ml" Conc_Model.step Conc_Model.init_sys Conc_Model.is_waiting
-  C15_Model.pstep C15_Model.pinit C15_Model.pool_body C15_Model.psome_move C15_Model.pc_at
+  C15_Model.pstep C15_Model.pinit C15_Model.pool_body C15_Model.psome_move C15_Model.pc_at C15_Model.joined
   Base_Bytes.xbyte_of_N Base_Bytes.xN_of_byte Base_Bytes.xanchor.
